@@ -47,15 +47,18 @@ type Turn18 struct {
 }
 
 type CaseC18 struct {
-	Input     []string `json:"input"`
-	Script    []Turn18 `json:"script"`
-	Tools     []string `json:"tools"`
-	Direct    []string `json:"direct,omitempty"`
-	MaxStep   int      `json:"maxstep,omitempty"`
-	Modifier  bool     `json:"modifier,omitempty"`
-	WholeChk  bool     `json:"wholechk,omitempty"`
-	StreamTls bool     `json:"streamtools,omitempty"` // tools are streamable-only
-	Exported  bool     `json:"exported,omitempty"`    // the agent is used as a node of a parent graph (ExportGraph and its options)
+	Input    []string `json:"input"`
+	Script   []Turn18 `json:"script"`
+	Tools    []string `json:"tools"`
+	Direct   []string `json:"direct,omitempty"`
+	MaxStep  int      `json:"maxstep,omitempty"`
+	Modifier bool     `json:"modifier,omitempty"`
+	// ModInPlace: the modifier builds its result inside the slice it is given (append + shift) instead of a new one;
+	// what it returns is the same, and the agent's own history must not be affected by it
+	ModInPlace bool `json:"modinplace,omitempty"`
+	WholeChk   bool `json:"wholechk,omitempty"`
+	StreamTls  bool `json:"streamtools,omitempty"` // tools are streamable-only
+	Exported   bool `json:"exported,omitempty"`    // the agent is used as a node of a parent graph (ExportGraph and its options)
 }
 
 type run18 struct {
@@ -210,6 +213,20 @@ func (t *tool18) Info(ctx context.Context) (*schema.ToolInfo, error) {
 	return &schema.ToolInfo{Name: t.name, Desc: "d"}, nil
 }
 
+// personaModifier18 prepends the persona message: either into a new slice (the library's own modifier) or inside
+// the slice it is given.
+func personaModifier18(inPlace bool) react.MessageModifier {
+	if !inPlace {
+		return react.NewPersonaModifier("persona")
+	}
+	return func(ctx context.Context, in []*schema.Message) []*schema.Message {
+		in = append(in, nil)
+		copy(in[1:], in)
+		in[0] = schema.SystemMessage("persona")
+		return in
+	}
+}
+
 func toolOut18(name, args string) string { return name + "<" + args + ">" }
 
 func (t *tool18) note(ctx context.Context, args string, opts ...tool.Option) {
@@ -284,6 +301,7 @@ func genC18(t *rapid.T) CaseC18 {
 		c.MaxStep = rapid.IntRange(1, 8).Draw(t, "maxStep")
 	}
 	c.Modifier = rapid.IntRange(0, 3).Draw(t, "modifier") == 0
+	c.ModInPlace = c.Modifier && rapid.Bool().Draw(t, "modInPlace")
 	c.StreamTls = rapid.IntRange(0, 3).Draw(t, "streamTools") == 0
 	c.Exported = rapid.IntRange(0, 3).Draw(t, "exported") == 0
 	return c
@@ -387,7 +405,7 @@ func checkC18(c CaseC18) (*vkit.Failure, vkit.Meta) {
 			}
 		}
 		if c.Modifier {
-			cfg.MessageModifier = react.NewPersonaModifier("persona")
+			cfg.MessageModifier = personaModifier18(c.ModInPlace)
 		}
 		if c.WholeChk {
 			cfg.StreamToolCallChecker = wholeChecker
